@@ -1,6 +1,7 @@
 import PhysisModel.Proofs.CharDat
 import PhysisModel.Base.BytesLemmas
 import PhysisModel.Proofs.GearSets
+import PhysisModel.Proofs.GearDecode
 import PhysisModel.Generated.GearSlotCodes
 set_option autoImplicit false
 /-!
@@ -124,6 +125,14 @@ theorem c09_gearsets_roundtrip_partial (t : Table) (h : WF t) :
     parseGear (writeGear (ofTable t)) = .ok (ofTable t) ∧ toTable (ofTable t) = t := by
   rw [writeGear_ofTable t h.1 (wf_sizes t h)]
   exact ⟨parseGear_encode t h, toTable_ofTable t⟩
+
+/-- An independent fixed-stride decoder (`Spec.GearSet.decode`: de-obfuscate, 452-byte set records,
+28-byte slot records, marker bits cleared) reads the written file back to the same names, item ids,
+glamour ids, facewear and hidden fields. -/
+theorem c09_gearsets_independent_partial (t : Table) (h : WF t) :
+    Spec.GearSet.decode (writeGear (ofTable t)) = some t := by
+  rw [writeGear_ofTable t h.1 (wf_sizes t h)]
+  exact Spec.GearSet.decode_encode t h
 
 /-- The reader accepts the documented file of every well-formed table and returns it. -/
 theorem c09_gearsets_parse_encode_partial (t : Table) (h : WF t) : parseGear (encode t) = .ok (ofTable t) :=
